@@ -213,7 +213,7 @@ def run(chk, replay=None):
     import tempfile
     from checks.c19 import build_simc
     simc = build_simc()
-    for n in (300, 1000, 6000):
+    for n in (300, 2500):
         t = "fn main() { %s }" % " ".join("assert!(jet::eq_32(%d, %d)); let v%d: u32 = dbg!(%d);" % (k, k, k, k) for k in range(n))
         with tempfile.NamedTemporaryFile("w", suffix=".simf", dir=BUILD, delete=False) as tf:
             tf.write(t)
